@@ -239,9 +239,15 @@ def h_commission(ctx, N, readdress, dry_run, which, nostore):
         resp = None
         st, val = "ok", None
         try:
+            nitems = 0
             while True:
                 item = gen.send(resp)
                 resp = None
+                nitems += 1
+                if nitems > 4000:
+                    gen.close()
+                    st = "nonterminating"
+                    break
                 if not isinstance(item, C.Command):
                     continue
                 if len(bus.commands) >= bus.max_commands:
